@@ -93,6 +93,7 @@ func (p *Program) verifyFunction(fn *ssa.Function, con *Contract) (res *FuncResu
 	order := topoOrder(fn)
 	in := map[*ssa.BasicBlock][]edge{fn.Blocks[0]: {{nil, "true", st}}}
 	f.run(order, in, nil, nil)
+	f.unwindPanics()
 
 	// exits
 	sort.SliceStable(f.exits, func(i, j int) bool { return f.exits[i].Pos < f.exits[j].Pos })
@@ -161,6 +162,9 @@ func (f *Frame) checkReturn(e Exit) {
 	if e.RetIdx == 0 {
 		anchor = "return#end"
 	}
+	if e.RetIdx < 0 {
+		anchor = "return#recover"
+	}
 	// hints evaluated with access to local cells
 	henv := f.env(e.St)
 	for k, v := range f.resultBindings(e) {
@@ -168,6 +172,10 @@ func (f *Frame) checkReturn(e Exit) {
 	}
 	for _, key := range []string{anchor, "return"} {
 		for _, h := range con.Hints[key] {
+			if h.Kind == "set" || h.Kind == "setdef" {
+				f.execSet(h, e.Cond, e.St, henv)
+				continue
+			}
 			t := henv.evalBool(h.E)
 			switch h.Kind {
 			case "use":
@@ -183,7 +191,7 @@ func (f *Frame) checkReturn(e Exit) {
 	}
 	env := f.envPost(e.St, f.resultBindings(e))
 	for i, en := range con.Ensures {
-		po := vc.oblige("post", fmt.Sprintf("%s#post:%d@%s", name, i+1, anchor), e.Cond, env.evalBool(en.E), f.pos(e.Pos), en.Src)
+		po := vc.obligeLater("post", fmt.Sprintf("%s#post:%d@%s", name, i+1, anchor), e.Cond, env.evalBool(en.E), f.pos(e.Pos), en.Src)
 		rn := f.fn.Signature.Results()
 		for ri := 0; ri < rn.Len() && ri < len(e.Results); ri++ {
 			rv := e.Results[ri]
@@ -194,6 +202,7 @@ func (f *Frame) checkReturn(e Exit) {
 			po.Results = append(po.Results, rv)
 		}
 	}
+	vc.flushDeferred()
 	// panics-when conditions must not hold on a normal return
 	for i, p := range con.Panics {
 		penv := f.envPost(f.entry, nil)
